@@ -249,6 +249,14 @@ func fieldCases() []fieldCase {
 		}
 	}
 	nested("post", post, []string{"attachment"}, "name", "href", "mediaType", "type", "height")
+	postNoNames := func() M {
+		d := post()
+		delete(d["attachment"].([]any)[0].(M), "name")
+		delete(d["url"].([]any)[0].(M), "name")
+		return d
+	}
+	nested("post-unnamed-links", postNoNames, []string{"attachment"}, "href", "mediaType")
+	nested("post-unnamed-links", postNoNames, []string{"url"}, "href")
 	nested("post", post, []string{"url"}, "name", "href", "mediaType", "type")
 	nested("post", post, []string{"attributedTo"}, "name", "preferredUsername", "type", "summary")
 	nested("post", post, []string{"replies"}, "totalItems", "type", "items")
@@ -271,6 +279,12 @@ func runField(r *ev.Report, fc fieldCase, a rune, shape string) {
 		v = M{hostile: 1.0, "type": "Link"}
 	case "entity-in-plain-field":
 		v = fmt.Sprintf("a&#%d;%sb", a, telltale)
+	case "percent-encoded-in-url-path":
+		enc := ""
+		for _, b := range []byte(string(a)) {
+			enc += fmt.Sprintf("%%%02X", b)
+		}
+		v = "https://example.com/p" + enc + "[7m/x?q=" + enc + "[7m#f" + enc + "[7m"
 	case "percent-encoded-in-url":
 		// net/url decodes %XX in host names (bytes >= 0x80) and paths
 		enc := ""
@@ -441,7 +455,7 @@ func main() {
 		r.Distinct(fmt.Sprint(j.ca.Name, j.a, j.e.Name))
 	})
 	// object fields (sequential: pub.New spawns goroutines and uses the shared peer)
-	shapes := []string{"string", "list", "object-with-hostile-type", "hostile-key", "entity-in-plain-field", "percent-encoded-in-url"}
+	shapes := []string{"string", "list", "object-with-hostile-type", "hostile-key", "entity-in-plain-field", "percent-encoded-in-url", "percent-encoded-in-url-path"}
 	for _, fc := range fieldCases() {
 		for _, a := range as {
 			for _, sh := range shapes {
